@@ -4,7 +4,7 @@ import glob, json, os
 ROOT = os.path.dirname(os.path.dirname(os.path.abspath(__file__)))
 print("| seed | changed | detected by | concrete input | first report |")
 print("|------|---------|-------------|----------------|--------------|")
-for d in sorted(glob.glob(os.path.join(ROOT, "seeded", "C*-[mrstu]*"))):
+for d in sorted(glob.glob(os.path.join(ROOT, "seeded", "C*-[mrstuv]*"))):
     m = json.load(open(os.path.join(d, "meta.json")))
     files = sorted({l[6:].strip() for l in open(os.path.join(d, "patch.diff")) if l.startswith("+++ b/")})
     det = m.get("detected_by") or {}
